@@ -371,18 +371,59 @@ def model_sessions(tier, rep, rng, count):
     rep.add_model(res, "MC_RadarUI")
     if not res["ok"]:
         rep.mismatch("C17", "ui|model", "no_panic", {"kind": "model", "violated": res["violated"], "tail": res["output_tail"][-800:]})
-    hs = []
-    for t in res["tuples"]:
+    # ... and long random walks of the same machine (TLC's simulation mode): each passes through many kinds of state
+    env2 = dict(env, MAXSTEPS="36")
+    sim = core.run_mc("MC_RadarUI", workers=1, timeout=600, cache=False, env_extra=env2,
+                      extra_args=["-simulate", "num=%d" % (300 if tier == "quick" else 3000), "-depth", "40", "-seed", str(rng.getrandbits(31))])
+    rep.add_model(sim, "MC_RadarUI (random walks of 36 steps)")
+    if not sim["ok"]:
+        rep.mismatch("C17", "ui|model", "no_panic", {"kind": "model", "violated": sim["violated"], "tail": sim["output_tail"][-800:]})
+    hs, covers = [], []
+    for t in sim["tuples"] + res["tuples"]:
         if t.startswith('<<"REPLAY"'):
-            items = re.findall(r'<<"(draw|loop|expire)">>|<<"key", "([^"]+)">>|<<"mouse", "([^"]+)", (\d+), (\d+)>>|<<"arrive", (\d)>>', t)
+            head, _, tail = t.partition('"SIGS"')
+            items = re.findall(r'<<"(draw|loop|expire)">>|<<"key", "([^"]+)">>|<<"mouse", "([^"]+)", (\d+), (\d+)>>|<<"arrive", (\d)>>', head)
+            sg = re.findall(r'<<(\d+), (\d+), (\d+), (\d+)>>', tail)
+            if len(sg) != len(items):
+                raise core.ToolError("MC_RadarUI: behaviour and signature histories differ in length")
             hs.append(items)
-    # prefer behaviours that involve the Airplanes tab, arrivals and expiry
+            # a transition class: the event, and the kind of state it was handled in (tab, selection none / on a row /
+            # beyond the rows, number of rows, whether the tab drawn last is still the current one)
+            covers.append({(it[1] or it[2] + it[3] + "," + it[4] or it[0] or "arrive" + it[5], g[0], g[1], g[2], g[0] == g[3]) for it, g in zip(items, sg)
+                           if it[1] or it[2]})
+    # one replay per transition class of the model first (greedy cover, rarest classes first), the rest at random from the
+    # behaviours that involve the Airplanes tab, arrivals and expiry
+    freq = {}
+    for c in covers:
+        for x in c:
+            freq[x] = freq.get(x, 0) + 1
+    allsig = set(freq)
+    # (the Airplanes tab is where handlers index into the data: its classes come first)
+    wt = lambda x: (5.0 if x[1] == "2" else 1.0) / freq[x]
+    order = sorted(range(len(hs)), key=lambda i: -sum(wt(x) for x in covers[i]))
+    covered, pick_idx = set(), []
+    budget = count * 3 // 4
+    # (greedy over a pre-sorted candidate list, re-scored lazily: good enough and linear)
+    cand = order[:20000]
+    while len(pick_idx) < budget and covered != allsig:
+        best, best_gain = None, 0.0
+        for i in cand:
+            gain = sum(wt(x) for x in covers[i] if x not in covered)
+            if gain > best_gain:
+                best, best_gain = i, gain
+        if best is None:
+            break
+        pick_idx.append(best)
+        covered |= covers[best]
+    rep.extra["model_transition_classes"] = len(allsig)
+    rep.extra["model_transition_classes_replayed"] = len(covered)
     def score(h):
         txt = json.dumps(h)
         return ("F(3)" in txt) * 2 + ("arrive" in txt) + ("expire" in txt) * 2 + ("Enter" in txt) + ("Down(Left)" in txt)
-    hs.sort(key=lambda h: -score(h))
-    pool = hs[:max(count * 20, 200)]
-    pick = rng.sample(pool, min(count, len(pool)))
+    rest = sorted((i for i in range(len(hs)) if i not in set(pick_idx)), key=lambda i: -score(hs[i]))
+    pool = rest[:max(count * 20, 200)]
+    pick_idx += rng.sample(pool, min(count - len(pick_idx), len(pool)))
+    pick = [hs[i] for i in pick_idx]
     out = []
     for i, h in enumerate(pick):
         steps = []
@@ -456,7 +497,7 @@ def cli_event(bindir, args):
 def run(prop, tier, seed, rep):
     rng = random.Random(seed * 1000003 + 17)
     bindir = core.build_apps()
-    msess, nmodel = model_sessions(tier, rep, rng, 16 if tier == "quick" else 400)
+    msess, nmodel = model_sessions(tier, rep, rng, 60 if tier == "quick" else 400)
     rsess = [random_session(rng, i) for i in range(24 if tier == "quick" else 1500)]
     # what was drawn last and what the state says now can differ within one burst: a key that changes the tab followed at
     # once by a click (touchscreen buttons exist only where they were drawn), in both directions
